@@ -338,9 +338,11 @@ mzd_t *mzd_from_jcf(const char *fn, int verbose) {
   long j = 0;
 
   while (fscanf(fh, "%ld\n", &j) == 1) {
+    if (j == 0 || j > n || j < -(long)n)
+      m4ri_die("column index %ld in row %ld of a %ld x %ld matrix\n", j, i + (j < 0), (long)m, (long)n);
     if (j < 0) { i++, j = -j; }
-    if ((j - 1) < 0 || ((j - 1) >= n) || i < 0 || (i >= m))
-      m4ri_die("trying to write to (%ld,%ld) in %ld x %ld matrix\n", i, j - 1, m, n);
+    if (i < 0 || (i >= m))
+      m4ri_die("trying to write to (%ld,%ld) in %ld x %ld matrix\n", i, j - 1, (long)m, (long)n);
     mzd_write_bit(A, i, j - 1, 1);
   };
 
